@@ -22,7 +22,13 @@ func HarnessC19AllTypes() {
 	var x *schemas.Type
 	defs := schemas.Definitions{}
 	shape := ""
-	switch zzvrt.Choice(6) {
+	switch zzvrt.Choice(7) {
+	case 6:
+		// a generated type whose own name is the one the emitted methods use for their shadow type
+		shape = "definitions-named-plain-and-Plain_0"
+		defs["plain"] = obj(map[string]*schemas.Type{"text": str()}, "text")
+		defs["Plain_0"] = obj(map[string]*schemas.Type{"n": {Type: schemas.TypeList{"integer"}, Minimum: zzF(1)}})
+		x = obj(map[string]*schemas.Type{"body": {Ref: "#/$defs/plain"}, "alt": {Ref: "#/$defs/Plain_0"}}, "body")
 	case 0:
 		shape = "anyOf(map-of-integers, object)"
 		x = &schemas.Type{AnyOf: []*schemas.Type{intMap(), obj(map[string]*schemas.Type{"a": str()}, "a")}}
